@@ -132,7 +132,7 @@ Definition set_pc_pub (t : thread) (p : pc) (c : nat) : thread :=
 (* leaving Resolve: the results join the accumulated ones; canc = Resolve returned an error *)
 Definition leave_resolve (t : thread) (p : pc) (h canc : bool) : thread :=
   {| trun := trun t; tkey := tkey t; tcaller := tcaller t; thost := thost t; tsync := tsync t; tpc := p;
-     tobj := tobj t; tslots := []; tacc := tacc t ++ map to_cres (tslots t); thold := h; tcanc := canc; tpub := tpub t |}.
+     tobj := tobj t; tslots := tslots t; tacc := tacc t ++ map to_cres (tslots t); thold := h; tcanc := canc; tpub := tpub t |}.
 
 Definition set_slot (sl : list (option dres)) (i : nat) (r : dres) : list (option dres) :=
   firstn i sl ++ match skipn i sl with [] => [] | _ :: tl => Some r :: tl end.
@@ -429,35 +429,38 @@ Definition apply_slot (m : nat -> thread) (sl : option (nat * nat * dres * optio
                thold := match h with Some b => b | None => thold tp end; tcanc := tcanc tp; tpub := tpub tp |}
   end.
 
+(* the generic application of an effect; p = the new number of free permits *)
+Definition apply_eff (s : state) (id : nat) (e : eff) (p : nat) : state :=
+  let m1 := apply_slot (upd (thr s) id (e_self e)) (e_slot e) in
+  {| inp := inp s;
+     tmap := match e_tmap e with Some (k, v) => upd (tmap s) k v | None => tmap s end;
+     edges := match e_edge e with
+              | Some ed => if has_edge (edges s) ed then edges s else edges s ++ [ed]
+              | None => edges s
+              end;
+     objs := match e_obj e with Some (o, v) => upd (objs s) o v | None => objs s end;
+     nobj := match e_obj e with Some (o, _) => if Nat.eqb o (nobj s) then S (nobj s) else nobj s | None => nobj s end;
+     thr := match e_spawn e with Some c => upd m1 (nthr s) c | None => m1 end;
+     nthr := match e_spawn e with Some _ => S (nthr s) | None => nthr s end;
+     rcanc := match e_cancel e with Some k => upd (rcanc s) (trun (thr s id)) (Some k) | None => rcanc s end;
+     nrun := nrun s;
+     permits := p;
+     clock := match e_edge e with Some _ => S (clock s) | None => clock s end;
+     nexec := match e_lead e with Some k => upd (nexec s) k (S (nexec s k)) | None => nexec s end;
+     roots := roots s |}.
+
 Definition step (w : world) (s : state) (id : nat) : option state :=
-  if negb (Nat.ltb id (nthr s)) then None else
-  match step_local w s id with
-  | None => None
-  | Some e =>
-    let m1 := apply_slot (upd (thr s) id (e_self e)) (e_slot e) in
-    let '(m2, n2) := match e_spawn e with Some c => (upd m1 (nthr s) c, S (nthr s)) | None => (m1, nthr s) end in
-    let s' (p : nat) :=
-      {| inp := inp s;
-         tmap := match e_tmap e with Some (k, v) => upd (tmap s) k v | None => tmap s end;
-         edges := match e_edge e with
-                  | Some ed => if has_edge (edges s) ed then edges s else edges s ++ [ed]
-                  | None => edges s
-                  end;
-         objs := match e_obj e with Some (o, v) => upd (objs s) o v | None => objs s end;
-         nobj := match e_obj e with Some (o, _) => if Nat.eqb o (nobj s) then S (nobj s) else nobj s | None => nobj s end;
-         thr := m2; nthr := n2;
-         rcanc := match e_cancel e with Some k => upd (rcanc s) (trun (thr s id)) (Some k) | None => rcanc s end;
-         nrun := nrun s;
-         permits := p;
-         clock := match e_edge e with Some _ => S (clock s) | None => clock s end;
-         nexec := match e_lead e with Some k => upd (nexec s) k (S (nexec s k)) | None => nexec s end;
-         roots := roots s |} in
-    match e_sem e with
-    | PSame => Some (s' (permits s))
-    | PRel => Some (s' (S (permits s)))
-    | PAcq => match permits s with O => None | S p => Some (s' p) end
+  if Nat.ltb id (nthr s) then
+    match step_local w s id with
+    | None => None
+    | Some e =>
+      match e_sem e with
+      | PSame => Some (apply_eff s id e (permits s))
+      | PRel => Some (apply_eff s id e (S (permits s)))
+      | PAcq => match permits s with O => None | S p => Some (apply_eff s id e p) end
+      end
     end
-  end.
+  else None.
 
 (* ---- Run, Evict, Edit ---- *)
 Definition ended (p : pc) : bool := match p with PEnd | PAbort => true | _ => false end.
@@ -549,3 +552,95 @@ Fixpoint drive (w : world) (fuel : nat) (s : state) : state :=
            | Some t => match step w s t with Some s' => drive w f s' | None => s end
            end
   end.
+
+(* ---- correspondence: observations of the real executor with the counting queries of the harness ---- *)
+(* the harness query: value = (input + sum (2j+3) * dep_j) mod 1000003 with failed dependencies counted as 0;
+   it fails with the first fatal error among its dependencies.  One number: 2 * value + (1 if fatal). *)
+Fixpoint comb (j v : N) (f : bool) (l : list cres) : N * bool :=
+  match l with
+  | [] => (v, f)
+  | CV r :: tl => let dv := if N.odd r then 0%N else N.div2 r in
+                  comb (j + 1)%N ((v + (2 * j + 3) * dv) mod 1000003)%N (f || N.odd r) tl
+  | _ :: tl => comb (j + 1)%N v true tl
+  end.
+Definition acomp (i : nat) (k : key) (l : list cres) : N :=
+  let '(v, f) := comb 0%N (N.of_nat i mod 1000003)%N false l in (2 * v + (if f then 1 else 0))%N.
+
+Inductive cop :=
+| CRun (ks : list key)
+       (cancelled : bool)                      (* Run returned ErrPanic *)
+       (res : list (N * bool * bool))          (* per query: 2*value+fatal, Changed, compare the value (else only fatal) *)
+       (execs : list nat)                      (* Execute calls per key during this Run *)
+       (keys_after : option (list key))        (* Executor.Keys() afterwards, if compared *)
+       (hang : bool)                           (* the Run did not return *)
+| CPar (runs : list (list key)) (res : list (list N)) (keys_after : list key)
+| CEvict (ks : list key) (keys_after : list key)
+| CEdit (ks : list key) (vs : list nat) (keys_after : list key).
+
+Record icase := {
+  c_n : nat; c_deps : list (list (list key)); c_panic : list (key * nat); c_fix : bool;
+  c_par : nat; c_inputs : list nat; c_ops : list cop
+}.
+
+Definition world_of (c : icase) : world :=
+  {| wn := c_n c; wdeps := fun _ k => nth k (c_deps c) []; wcomp := acomp;
+     wpanic := fun k => option_map snd (find (fun e => Nat.eqb (fst e) k) (c_panic c)); wfix := c_fix c |}.
+
+Definition list_nat_eqb (a b : list nat) : bool := if list_eq_dec Nat.eq_dec a b then true else false.
+Definition res_eqb (r : option dres) (e : N * bool * bool) : bool :=
+  let '(v, ch, exact) := e in
+  match r with
+  | Some (DVal v' ch') => (if exact then N.eqb v v' else Bool.eqb (N.odd v) (N.odd v')) && Bool.eqb ch ch'
+  | _ => false
+  end.
+Fixpoint all2 {A B} (f : A -> B -> bool) (a : list A) (b : list B) : bool :=
+  match a, b with
+  | [], [] => true
+  | x :: a', y :: b' => f x y && all2 f a' b'
+  | _, _ => false
+  end.
+Definition val_eqb (r : option dres) (v : N) : bool :=
+  match r with Some (DVal v' _) => N.eqb v v' | _ => false end.
+
+Definition drive_fuel (c : icase) : nat := 400 * (c_n c + 2).
+
+Fixpoint chk_ops (w : world) (c : icase) (ops : list cop) (s : state) : bool :=
+  match ops with
+  | [] => true
+  | CRun ks canc res execs ka hang :: rest =>
+    let s0 := start_run s ks in
+    let root := nthr s in
+    let s1 := drive w (drive_fuel c) s0 in
+    if hang then stuck w s1
+    else
+      quiescent s1 && Nat.eqb (permits s1) (c_par c) &&
+      Bool.eqb canc (match rcanc s1 (nrun s0) with Some _ => true | None => false end) &&
+      (if canc then true
+       else all2 res_eqb (tslots (thr s1 root)) res &&
+            list_nat_eqb (map (fun k => nexec s1 k - nexec s k) (seq 0 (c_n c))) execs) &&
+      match ka with
+      | Some l => list_nat_eqb (done_keys w s1) l && chk_ops w c rest s1
+      | None => canc
+      end
+  | CPar runs res ka :: rest =>
+    let s0 := fold_left start_run runs s in
+    let s1 := drive w (drive_fuel c * length runs) s0 in
+    quiescent s1 && Nat.eqb (permits s1) (c_par c) &&
+    all2 (fun i vs => all2 val_eqb (tslots (thr s1 (nthr s + i))) vs) (seq 0 (length runs)) res &&
+    list_nat_eqb (done_keys w s1) ka && chk_ops w c rest s1
+  | CEvict ks ka :: rest =>
+    match do_event w s (EEvict ks) with
+    | Some s1 => list_nat_eqb (done_keys w s1) ka && chk_ops w c rest s1
+    | None => false
+    end
+  | CEdit ks vs ka :: rest =>
+    match do_event w s (EEdit ks vs) with
+    | Some s1 => list_nat_eqb (done_keys w s1) ka && chk_ops w c rest s1
+    | None => false
+    end
+  end.
+
+Definition inc_chk (c : icase) : bool :=
+  let w := world_of c in
+  Nat.leb 1 (c_par c) &&
+  chk_ops w c (c_ops c) (init (c_par c) (fun k => nth k (c_inputs c) 0)).
